@@ -4,7 +4,7 @@ import EAO.Model.Translate
 /-! handlers of the line protocol for the two-stage stochastic program and the robust target
 
 * `slp`: `{problem, samples: [[rat]], futureSteps: [nat]}` or `{problem, samples, pts: [int], end: int,
-  start_future: int}` → `{problem, slp: [int|null], mask: [bool], nF, futureSteps}` or `{error: class}`
+  start_future: int}` → `{problem, slp: [int|null], mask: [bool], straddle: [bool], nF, futureSteps}` or `{error: class}`
 * `slp_readout`: `{mapping: [maprow], slp: [int|null], x: [rat], cells: [[asset, node, step]]}`
   → `{dispatch: [rat], n_samples, index_error}` (`index_error`: some mapping label ≥ len x,
   where `res.x[i]` of the implementation raises)
@@ -42,7 +42,7 @@ def handleSlp (op : String) (j : Json) : Option (Except String Json) :=
     | .ok Q =>
       let mask := slpMask P F
       pure (Json.mkObj [("problem", jProblem Q), ("slp", jList jOptInt (slpColumn P F samples.length)),
-        ("mask", jList Json.bool mask), ("nF", jNat (maskCount mask)), ("futureSteps", jList jNat F)])
+        ("mask", jList Json.bool mask), ("straddle", jList Json.bool (slpStraddle P F)), ("nF", jNat (maskCount mask)), ("futureSteps", jList jNat F)])
   | "slp_readout" => do
     let M ← field j "mapping" (getList getMapRow)
     let slp ← field j "slp" (getList getOptInt)
